@@ -669,6 +669,11 @@ impl<'a> CProgram<'a> {
     }
 }
 
+enum Item {
+    Val(Value, Ty),
+    List(Vec<Item>),
+}
+
 enum Named {
     Var(Place, Ty),
     Value(Value, Ty),
@@ -1235,14 +1240,156 @@ impl<'p, 'a> Machine<'p, 'a> {
                 let (v, vt) = self.eval(&a.node)?;
                 Ok((self.explicit(&v, &vt, &ty)?, ty))
             }
-            E::BracedInit(..) => Err(Stop::Unsupported("braced init expression".into())),
+            E::BracedInit(t, inits) => {
+                if self.p.dialect != Dialect::Metal {
+                    return Err(Stop::Unsupported("braced init expression".into()));
+                }
+                let ns = self.frames[self.cur()].ns;
+                let ty = self.p.resolve_type_id(t, ns)?;
+                let v = self.cxx_init(&ty, inits)?;
+                Ok((v, ty))
+            }
             E::SizeOf(_) => Err(Stop::Unsupported("sizeof".into())),
             E::AmbiguousParseBranch(_) => stuck("unresolved ambiguous parse"),
         }
     }
 
     fn explicit(&self, v: &Value, from: &Ty, to: &Ty) -> R<Value> {
+        // HLSL: a scalar cast to a struct or an array gives every scalar slot the converted value
+        if let (Ty::S(_), Ty::Struct(_) | Ty::Array(..), Value::S(sc)) = (from, to, v) {
+            return self.splat(to, *sc);
+        }
         self.implicit(v, from, to)
+    }
+
+    fn splat(&self, t: &Ty, s: Sc) -> R<Value> {
+        Ok(match t {
+            Ty::Void => return stuck("cast to void"),
+            Ty::S(st) => Value::S(conv(s, *st)?),
+            Ty::V(st, n) => Value::V(vec![conv(s, *st)?; *n]),
+            Ty::Struct(si) => {
+                let mut f = Vec::new();
+                for (_, ft) in &self.p.structs[*si].fields {
+                    f.push(self.splat(ft, s)?);
+                }
+                Value::Struct(f)
+            }
+            Ty::Array(et, n) => Value::Array(vec![self.splat(et, s)?; *n]),
+        })
+    }
+
+    /// initialiser clauses evaluated once, left to right
+    fn eval_items(&mut self, inits: &[ast::Initializer]) -> R<Vec<Item>> {
+        let mut out = Vec::new();
+        for i in inits {
+            match i {
+                ast::Initializer::Expression(e) => {
+                    let (v, t) = self.eval(&e.node)?;
+                    out.push(Item::Val(v, t));
+                }
+                ast::Initializer::Aggregate(inner) => out.push(Item::List(self.eval_items(inner)?)),
+                ast::Initializer::StaticSampler(_) => return Err(Stop::Unsupported("static sampler".into())),
+            }
+        }
+        Ok(out)
+    }
+
+    fn zero_value(&self, t: &Ty) -> Value {
+        match t {
+            Ty::Void => Value::Void,
+            Ty::S(st) => Value::S(zero_of(*st)),
+            Ty::V(st, n) => Value::V(vec![zero_of(*st); *n]),
+            Ty::Struct(i) => Value::Struct(self.p.structs[*i].fields.iter().map(|(_, t)| self.zero_value(t)).collect()),
+            Ty::Array(e, n) => Value::Array(vec![self.zero_value(e); *n]),
+        }
+    }
+
+    /// C++ aggregate initialisation ([dcl.init.aggr]): one clause per non-aggregate member (a vector member takes one
+    /// clause; a scalar clause is replicated), brace elision for nested aggregates, a clause of the member's own aggregate
+    /// type initialises it as a whole, members without a clause are value-initialised
+    fn cxx_fill(&self, t: &Ty, items: &[Item], pos: &mut usize) -> R<Value> {
+        match t {
+            Ty::Void => stuck("void object"),
+            Ty::S(_) | Ty::V(..) => {
+                if *pos >= items.len() {
+                    return Ok(self.zero_value(t));
+                }
+                match &items[*pos] {
+                    Item::Val(v, vt) => {
+                        *pos += 1;
+                        self.implicit(v, vt, t)
+                    }
+                    Item::List(inner) if inner.len() == 1 => {
+                        *pos += 1;
+                        let mut p = 0;
+                        self.cxx_fill(t, inner, &mut p)
+                    }
+                    Item::List(_) => Err(Stop::Unsupported("braced list for a scalar or vector member".into())),
+                }
+            }
+            Ty::Struct(_) | Ty::Array(..) => {
+                if *pos < items.len() {
+                    match &items[*pos] {
+                        Item::List(inner) => {
+                            *pos += 1;
+                            let mut p = 0;
+                            let v = self.cxx_members(t, inner, &mut p)?;
+                            if p < inner.len() {
+                                return stuck("too many initialiser clauses");
+                            }
+                            return Ok(v);
+                        }
+                        Item::Val(v, vt) if vt == t => {
+                            *pos += 1;
+                            return Ok(v.clone());
+                        }
+                        _ => {}
+                    }
+                }
+                self.cxx_members(t, items, pos)
+            }
+        }
+    }
+
+    fn cxx_members(&self, t: &Ty, items: &[Item], pos: &mut usize) -> R<Value> {
+        match t {
+            Ty::Struct(si) => {
+                let mut f = Vec::new();
+                for (_, ft) in &self.p.structs[*si].fields {
+                    f.push(self.cxx_fill(ft, items, pos)?);
+                }
+                Ok(Value::Struct(f))
+            }
+            Ty::Array(et, n) => {
+                let mut f = Vec::new();
+                for _ in 0..*n {
+                    f.push(self.cxx_fill(et, items, pos)?);
+                }
+                Ok(Value::Array(f))
+            }
+            Ty::V(st, n) => {
+                // a vector initialised from a braced list of its components
+                let mut f = Vec::new();
+                for _ in 0..*n {
+                    match self.cxx_fill(&Ty::S(*st), items, pos)? {
+                        Value::S(c) => f.push(c),
+                        _ => return stuck("vector component"),
+                    }
+                }
+                Ok(Value::V(f))
+            }
+            _ => self.cxx_fill(t, items, pos),
+        }
+    }
+
+    fn cxx_init(&mut self, t: &Ty, inits: &[ast::Initializer]) -> R<Value> {
+        let items = self.eval_items(inits)?;
+        let mut p = 0;
+        let v = self.cxx_members(t, &items, &mut p)?;
+        if p < items.len() {
+            return stuck("too many initialiser clauses");
+        }
+        Ok(v)
     }
 
     fn construct(&mut self, ty: &Ty, args: &[rssl::text::Located<ast::Expression>]) -> R<(Value, Ty)> {
@@ -1568,6 +1715,7 @@ impl<'p, 'a> Machine<'p, 'a> {
                 let (v, vt) = self.eval(&e.node)?;
                 self.implicit(&v, &vt, t)
             }
+            ast::Initializer::Aggregate(list) if self.p.dialect == Dialect::Metal => self.cxx_init(t, list),
             ast::Initializer::Aggregate(_) => {
                 let mut flat = Vec::new();
                 self.flatten_init(init, &mut flat)?;
